@@ -76,6 +76,46 @@ def c13(mode, x, again):
     return None
 
 
+def c11_node_hits_in_readonly_cache(relative, x=1):
+    """the nodes of FlakyWf(x) have complete results in a read-only cache (produced by running them as single tasks); the
+    workflow submitted with that cache listed - as an absolute or as a relative path - must not execute them again"""
+    from pydra.engine.submitter import Submitter
+    E.reset()
+    R.clear()
+    R.FLAGS["fail"] = False
+    d, ro = E.scratch(), E.scratch()
+    cwd = os.getcwd()
+    try:
+        with Submitter(cache_root=ro, worker="debug") as sub:
+            sub(D.Flaky(x=x, tag=1))
+            sub(D.Flaky(x=x * 10 + 1, tag=2))
+        n1 = len(bodies("Flaky"))
+        before = sorted(os.listdir(ro))
+        os.chdir(os.path.dirname(ro))
+        loc = os.path.basename(ro) if relative else ro
+        try:
+            with Submitter(cache_root=d, worker="debug", readonly_caches=[loc]) as sub:
+                res = sub(D.FlakyWf(x=x), raise_errors=False)
+        finally:
+            os.chdir(cwd)
+        n2 = len(bodies("Flaky")) - n1
+        after = sorted(os.listdir(ro))
+        out = None if res.errored else res.outputs.out
+    finally:
+        os.chdir(cwd)
+        E.cleanup(d)
+        E.cleanup(ro)
+    T.reach()
+    desc = "workflow whose node results are in the read-only cache %r" % (loc,)
+    if out != (x * 10 + 1) * 10 + 2:
+        return "%s: output %r" % (desc, out)
+    if n2 != 0:
+        return "%s: %d node bodies executed again" % (desc, n2)
+    if before != after:
+        return "%s: the read-only cache was modified: %s -> %s" % (desc, before, after)
+    return None
+
+
 def split_resubmission(n, k, mode):
     """FlakySplit over n elements, submitted twice to one cache root with max_concurrent k (None = unlimited) on the sequential
     worker.  mode 'rerun': second submission with rerun=True must execute every job again (C11).  mode 'stale_error': the last
